@@ -89,6 +89,9 @@ func (h *Handler) SyncGenesisHeader(native *native.NativeService) (err error) {
 	}
 
 	header, err := jsonHeaderAndInfo.BlockHeader.ToTypesHeader()
+	if err != nil || header == nil {
+		return errors.Errorf("SyncGenesisHeader, to types.BlockHeader err: %v", err)
+	}
 	headerStore, err := native.GetCacheDB().Get(utils.ConcatKey(utils.HeaderSyncContractAddress, []byte(scom.GENESIS_HEADER), utils.GetUint64Bytes(params.ChainID)))
 	if err != nil {
 		return errors.Errorf("STCHandler GetHeaderByHeight, get blockHashStore error: %v", err)
